@@ -24,7 +24,8 @@ namespace GeographicLib {
     sig = _earth.Inverse(lat0, lon0, lat, lon, s, azi0, azi, m);
     Math::sincosd(azi0, x, y);
     x *= s; y *= s;
-    rk = !(sig <= eps_) ? m / s : 1;
+    // Inverse can return s = 0 with a round-off-sized sig and m
+    rk = !(sig <= eps_) && s != 0 ? m / s : 1;
   }
 
   void AzimuthalEquidistant::Reverse(real lat0, real lon0, real x, real y,
